@@ -7,8 +7,9 @@ set -u
 echo "== demo with the change"; (cd $WT && timeout 900 bash SEED/run_demo.sh > /tmp/wt/$ID.demo_with.log 2>&1; echo "exit=$?")
 echo "== demo without the change"; (cd $WT && git stash -q -- xenium && timeout 900 bash SEED/run_demo.sh > /tmp/wt/$ID.demo_without.log 2>&1; echo "exit=$?"; git stash pop -q)
 echo "== existing suite with the change"; (cd $WT && cmake --build _build --target gtest 2>&1 | tail -1; timeout 1800 ctest --test-dir _build -j8 --timeout 900 2>&1 | tail -3)
-rm -rf /tmp/seedx && mkdir -p /tmp/seedx && cp -r /repo/xenium /tmp/seedx/ && (cd /tmp/seedx && git init -q . 2>/dev/null; patch -p1 --binary < $WT/SEED/patch.diff | tail -2)
+rm -rf /tmp/seedx-$ID && mkdir -p /tmp/seedx-$ID && cp -r /repo/xenium /tmp/seedx-$ID/ && (cd /tmp/seedx-$ID && git init -q . 2>/dev/null; patch -p1 --binary < $WT/SEED/patch.diff | tail -2)
 for P in "$@"; do
   echo "== my check $P against the change"
-  VERIF_XENIUM_ROOT=/tmp/seedx VERIF_EVIDENCE_DIR=/tmp/seedx/evidence VERIF_REPLAY_DIR=/tmp/seedx/replays python3 /verif/vcheck.py $P --tier quick 2>&1 | grep -v "^KNOWN-FINDING" | cut -c1-220 | head -8
+  VERIF_XENIUM_ROOT=/tmp/seedx-$ID VERIF_EVIDENCE_DIR=/tmp/seedx-$ID/evidence VERIF_REPLAY_DIR=/tmp/seedx-$ID/replays python3 /verif/vcheck.py $P --tier quick 2>&1 | grep -v "^KNOWN-FINDING" | cut -c1-220 | head -8
 done
+rm -rf /tmp/seedx-$ID
